@@ -1,0 +1,26 @@
+//go:build verif
+
+// Machine-checked contracts (comment-only; compiled only under the build tag "verif").
+package daemonset
+
+//@ define planned(release, replicas) = clamp(ios_scaled(release.Spec.ReleasePlan.Batches[release.Status.CanaryStatus.CurrentBatch].CanaryReplicas, replicas, true), 0, replicas)
+
+//@ func (*realController).CalculateBatchContext
+//@ props C01 C07
+//@ requires rc != nil && release != nil && rc.object != nil && rc.WorkloadInfo != nil && rc.object.Spec.UpdateStrategy.RollingUpdate != nil
+//@ requires 0 <= release.Status.CanaryStatus.CurrentBatch && release.Status.CanaryStatus.CurrentBatch < len(release.Spec.ReleasePlan.Batches)
+//@ requires rc.Replicas >= 0
+//@ requires release.Status.CanaryStatus.NoNeedUpdateReplicas != nil ==> *release.Status.CanaryStatus.NoNeedUpdateReplicas <= rc.Replicas
+//@ ensures ok: result1 == nil ==> result0 != nil
+//@ ensures {C01} planned: result1 == nil ==> result0.PlannedUpdatedReplicas == planned(release, rc.Replicas) && 0 <= result0.PlannedUpdatedReplicas && result0.PlannedUpdatedReplicas <= rc.Replicas
+//@ ensures {C01} exposure_exact: result1 == nil && release.Status.CanaryStatus.NoNeedUpdateReplicas == nil ==> result0.DesiredPartition.Type == 0 && rc.Replicas - result0.DesiredPartition.IntVal == result0.PlannedUpdatedReplicas
+//@ ensures {C01} desired_is_planned: result1 == nil && release.Status.CanaryStatus.NoNeedUpdateReplicas == nil ==> result0.DesiredUpdatedReplicas == result0.PlannedUpdatedReplicas
+//@ ensures {C07} target_suffices: result1 == nil && release.Status.CanaryStatus.NoNeedUpdateReplicas == nil ==> rc.Replicas - result0.DesiredPartition.IntVal >= result0.DesiredUpdatedReplicas
+
+//@ func (*realController).UpgradeBatch
+//@ props C01 C06
+//@ requires rc != nil && ctx != nil && rc.object != nil && rc.client != nil
+//@ ensures one_write: #Patch <= 1 && #Update == 0 && #Create == 0 && #Delete == 0
+//@ ensures only_forward: #Patch == 1 ==> old(ctx.CurrentPartition.IntVal) > old(ctx.DesiredPartition.IntVal)
+//@ ensures idempotent: old(ctx.CurrentPartition.IntVal) <= old(ctx.DesiredPartition.IntVal) ==> #Patch == 0 && result == nil
+//@ ensures body: #Patch == 1 ==> patchBody(#Patch.arg3) == sprintf("{\"spec\":{\"updateStrategy\":{\"rollingUpdate\":{\"partition\":%d}}}}", old(ctx.DesiredPartition.IntVal))
